@@ -161,6 +161,7 @@ func vhMeltQuoteStep(mode int) {
 				v.Assert(!q.IsMpp, "C02 a quote without the mpp option is not MPP")
 			}
 			v.Assert(msat > 0, "C02 an invoice without amount is not quoted")
+			v.Assert(v.Not(v.And(useMpp, internalBefore)), "C02 a partial (MPP) melt quote is never granted for the invoice of one of this mint's own mint quotes (internal settlement would credit that quote in full)")
 			v.Assert(v.ZLe(paid, v.ZMul(v.ZU(q.Amount), v.ZU(1000))), "C02 the quoted sat amount covers the msat amount the mint will pay (no rounding down)")
 			v.Assert(v.ZLt(v.ZMul(v.ZU(q.Amount), v.ZU(1000)), v.ZAdd(paid, v.ZU(1000))), "C02 the quoted sat amount is the msat amount rounded to the next sat, not more")
 			v.Assert(v.And(q.InvoiceRequest == request, q.PaymentHash == hash, q.State == nut05.Unpaid), "C02 the quote stores the invoice, its payment hash and state UNPAID")
